@@ -161,6 +161,12 @@ pub fn fields_c08(o: &DayObjs) -> Vec<(&'static str, String)> {
   }
   if let Some(l) = &o.lunar {
     r.push(("year/month pillars via the lunar day's sexagenary-day view", part(|| { let x = l.get_sixty_cycle_day(); format!("{} {}", x.get_year(), x.get_month()) })));
+    // the (deprecated, still public) pillar accessors of the lunar day itself
+    #[allow(deprecated)]
+    {
+      r.push(("year pillar", part(|| l.get_year_sixty_cycle().to_string())));
+      r.push(("month pillar", part(|| l.get_month_sixty_cycle().to_string())));
+    }
   }
   r
 }
@@ -262,9 +268,14 @@ pub fn compare_day_routes(env: &Env, out: &mut Out, sub: &str, case: &Case, i: u
   if out.wants_sample(sub, true) {
     out.sample(sub, true, || serde_json::json!({"date": c.fmt(i), "routes": routes.iter().map(|r| r.route).collect::<Vec<_>>()}));
   }
-  let base: std::collections::BTreeMap<&'static str, String> = fields(&routes[0]).into_iter().collect();
+  // a field name may occur several times in one object (two accessors of the same quantity): the first occurrence in the
+  // constructed object is the reference for all of them, in every object including the constructed one
+  let mut base: std::collections::BTreeMap<&'static str, String> = std::collections::BTreeMap::new();
+  for (name, val) in fields(&routes[0]) {
+    base.entry(name).or_insert(val);
+  }
   let (y, m, d) = c.ymd(i);
-  for o in routes.iter().skip(1) {
+  for o in routes.iter() {
     for (name, val) in fields(o) {
       if let Some(b) = base.get(name) {
         if *b != val {
@@ -333,6 +344,11 @@ pub fn hour_fields_c09(o: &HourObjs) -> Vec<(&'static str, String)> {
     r.push(("four pillars of the instant view", part(|| format!("{} {} {} {}", x.get_year(), x.get_month(), x.get_day(), x.get_sixty_cycle()))));
     r.push(("eight characters of the instant view", part(|| x.get_eight_char().to_string())));
     r.push(("index in day (instant view)", part(|| x.get_index_in_day().to_string())));
+    r.push(("day pillar at the instant level", part(|| x.get_day().to_string())));
+  }
+  if let Some(x) = &o.lh {
+    #[allow(deprecated)]
+    r.push(("day pillar at the instant level", part(|| x.get_day_sixty_cycle().to_string())));
   }
   if let Some(x) = &o.lh {
     r.push(("lunar hour", part(|| lh_label(x))));
@@ -370,6 +386,10 @@ pub fn hour_fields_c08(o: &HourObjs) -> Vec<(&'static str, String)> {
   if let Some(x) = &o.sh {
     r.push(("year / month pillar of the instant view", part(|| format!("{} {}", x.get_year(), x.get_month()))));
   }
+  if let Some(x) = &o.lh {
+    #[allow(deprecated)]
+    r.push(("year / month pillar of the instant view", part(|| format!("{} {}", x.get_year_sixty_cycle(), x.get_month_sixty_cycle()))));
+  }
   r
 }
 
@@ -399,9 +419,12 @@ pub fn compare_hour_routes(env: &Env, out: &mut Out, sub: &str, case: &Case, i: 
   if out.wants_sample(sub, true) {
     out.sample(sub, true, || serde_json::json!({"instant": format!("{} {:02}:30", c.fmt(i), hour), "routes": routes.iter().map(|r| r.route).collect::<Vec<_>>()}));
   }
-  let base: std::collections::BTreeMap<&'static str, String> = fields(&routes[0]).into_iter().collect();
+  let mut base: std::collections::BTreeMap<&'static str, String> = std::collections::BTreeMap::new();
+  for (name, val) in fields(&routes[0]) {
+    base.entry(name).or_insert(val);
+  }
   let (y, m, d) = c.ymd(i);
-  for o in routes.iter().skip(1) {
+  for o in routes.iter() {
     for (name, val) in fields(o) {
       if let Some(b) = base.get(name) {
         if *b != val {
